@@ -623,18 +623,21 @@ func (st *AclState) applyAccountsAdd(ch *aclrecordproto.AclAccountsAdd, record *
 		if err != nil {
 			return err
 		}
-		st.accountStates[mapKeyFromPubKey(identity)] = AccountState{
-			PubKey:          identity,
-			Permissions:     AclPermissions(acc.Permissions),
-			Status:          StatusActive,
-			RequestMetadata: acc.Metadata,
-			KeyRecordId:     st.CurrentReadKeyId(),
-			PermissionChanges: []PermissionChange{
-				{
-					Permission: AclPermissions(acc.Permissions),
-					RecordId:   record.Id,
-				},
-			},
+		pKeyString := mapKeyFromPubKey(identity)
+		// a previously known (e.g. removed) account keeps its permission history, as it does when it
+		// comes back through a request accept or an invite join: PermissionsAtRecord for records before
+		// this one must keep answering what it answered before
+		permissionChanges := []PermissionChange{{Permission: AclPermissions(acc.Permissions), RecordId: record.Id}}
+		if state, exists := st.accountStates[pKeyString]; exists {
+			permissionChanges = append(state.PermissionChanges, permissionChanges[0])
+		}
+		st.accountStates[pKeyString] = AccountState{
+			PubKey:            identity,
+			Permissions:       AclPermissions(acc.Permissions),
+			Status:            StatusActive,
+			RequestMetadata:   acc.Metadata,
+			KeyRecordId:       st.CurrentReadKeyId(),
+			PermissionChanges: permissionChanges,
 		}
 
 		// If the current account is the one being added, then decrypt the read key using its private key
